@@ -23,19 +23,20 @@ var repoRoot = func() string {
 	}
 	return "/repo"
 }()
+
 const modPath = "github.com/gethiox/HIDI"
 
 type Engine struct {
-	prog    *ssa.Program
-	pkgs    []*packages.Package
-	allPkgs map[string]*packages.Package
-	ssaPkg  map[string]*ssa.Package
-	cf      *ContractFile
-	predPkg map[string]*types.Package
-	funcs   map[string]*ssa.Function // contract key -> function
-	byName  map[string][]*types.Package
-	globals map[*types.Var]*ssa.Global
-	notes   []string
+	prog          *ssa.Program
+	pkgs          []*packages.Package
+	allPkgs       map[string]*packages.Package
+	ssaPkg        map[string]*ssa.Package
+	cf            *ContractFile
+	predPkg       map[string]*types.Package
+	funcs         map[string]*ssa.Function // contract key -> function
+	byName        map[string][]*types.Package
+	globals       map[*types.Var]*ssa.Global
+	notes         []string
 	contractFiles []string
 }
 
@@ -136,6 +137,13 @@ func loadEngine() (*Engine, error) {
 		}
 	}
 	return e, nil
+}
+
+func outRoot() string {
+	if v := os.Getenv("HV_OUT"); v != "" {
+		return v
+	}
+	return verifRoot()
 }
 
 func verifRoot() string {
@@ -452,6 +460,10 @@ func (e *Engine) genLemmaVC(l *Lemma, pkg *types.Package) (res *FuncResult) {
 	}()
 	env := &Env{x: x, cur: x.entry, old: x.entry, vars: map[string]SVal{}, pkg: pkg}
 	goal := env.evalBool(l.E)
+	if l.Canary {
+		vc.oblige(&Obligation{Name: "canary." + l.Name, Kind: "cover", Tags: l.Tags, Goal: tTrue, PC: tTrue, Src: "must not be provable: " + l.Src, Cover: true, Extra: []string{not(goal).S}})
+		return
+	}
 	vc.oblige(&Obligation{Name: "lemma." + l.Name, Kind: "lemma", Tags: l.Tags, Goal: goal, PC: tTrue, Src: l.Src})
 	return
 }
